@@ -234,7 +234,7 @@ package generator
 //@   option call-result emitter
 //@   shape validators = absvals(0) | absvals(1) | absvals(2) | absvals(3)
 //@   shape-thorough validators = absvals(4)
-//@   shape declType = decl(T,none) | decl(T,struct) | decl(T,addl2) | decl(Plain,none) | decl(Plain,addl)
+//@   shape declType = decl(T,none) | decl(T,struct) | decl(T,addl2) | decl(Plain,none) | decl(Plain,addl) | decl(T,map)
 //@   shape output = decls(T) | decls(T,Plain) | decls(Plain) | decls(Plain,Plain_0) | decls(Plain,Plain_0?) | decls(Plain,Plain_0,Plain_1)
 //@   requires declared: map_has(output.declsByName, declType.Name)
 //@   assigns *output.file
@@ -252,7 +252,7 @@ package generator
 //@   option twin (*jsonFormatter).generate
 //@   shape validators = absvals(0) | absvals(1) | absvals(2) | absvals(3)
 //@   shape-thorough validators = absvals(4)
-//@   shape declType = decl(T,none) | decl(T,struct) | decl(T,addl2) | decl(Plain,none) | decl(Plain,addl)
+//@   shape declType = decl(T,none) | decl(T,struct) | decl(T,addl2) | decl(Plain,none) | decl(Plain,addl) | decl(T,map)
 //@   shape output = decls(T) | decls(T,Plain) | decls(Plain) | decls(Plain,Plain_0) | decls(Plain,Plain_0?) | decls(Plain,Plain_0,Plain_1)
 //@   requires declared: map_has(output.declsByName, declType.Name)
 //@   assigns *output.file
@@ -418,6 +418,8 @@ package generator
 //@   ensures [C02,C09,C16] optional-is-nillable: result == nil && requiredNames[name] != true && the_prop(t, name).Default == nil ==> is_nillable(last(structType.Fields).Type)
 //@   ensures [C02,C09,C16] required-or-default-keeps-type: result == nil && (requiredNames[name] == true || the_prop(t, name).Default != nil) ==> last(structType.Fields).Type == call_result("(*schemaGenerator).generateTypeInline", 0)
 //@   ensures [C14] name-recorded: result == nil ==> map_has(uniqueNames, final_base(g, t, name))
+//@   ensures [C14,C01] a-name-taken-by-a-sibling-is-not-used-again: result == nil && old(map_has(uniqueNames, final_base(g, t, name))) ==> last(structType.Fields).Name != final_base(g, t, name)
+//@   ensures [C14] a-free-name-is-used-as-it-is: result == nil && !old(map_has(uniqueNames, final_base(g, t, name))) ==> last(structType.Fields).Name == final_base(g, t, name)
 //@   ensures [C14,C16] tags: result == nil ==> last(structType.Fields).Tags == expected_tags(g.config.Tags, name, requiredNames[name] == true)
 
 // ---- deliberate error drops (C18 error-propagation obligations) --------------
@@ -454,6 +456,17 @@ package generator
 //@   assigns nothing
 //@   ensures [C02,C10,C20,C08,C16,C14,C03,C13] returns-an-equal-declaration: result != nil ==> cmp_equal(result.SchemaType, t)
 //@   ensures [C02,C10,C20] returns-a-candidate: result != nil ==> result == o.declsByName["T"] || result == o.declsByName["T_1"] || result == o.declsByName["T_2"]
+
+// Whether a schema node may reuse the declaration made for another one is decided
+// by cmp.Equal alone (with the options of cmputil.Opts, which has its own
+// contract): a second test or-ed to it — "the enums print alike", "the titles
+// agree" — lets different schemas share a Go type.
+//@ func (*output).getDeclByEqualSchema@equality
+//@   props C02 C03 C08 C09 C10 C14 C20
+//@   schema-equality-only-by cmp.Equal
+//@ func (*schemaGenerator).generateDeclaredType@equality
+//@   props C02 C03 C08 C09 C10 C14 C20
+//@   schema-equality-only-by cmp.Equal
 
 // ---- order of the validators of one field (generateDeclaredType) --------------
 // A field's default must be assigned before the same field's constraints are
@@ -565,6 +578,7 @@ package generator
 //@   shape t.Type = strs(object)
 //@   shape t.subSchemaType = ""
 //@   ensures [C06,C05,C07,C09,C04] defaults-then-constraints-for-every-field: result1 == nil && !g.config.OnlyModels ==> validator_kinds(call_arg("(*schemaGenerator).generateUnmarshaler", 2)) == "default,string,string"
+//@   ensures [C18,C01] a-type-or-an-error: (result1 == nil) != (result0 == nil)
 
 // ---- one schemaGenerator per document (newSchemaGenerator) ---------------------
 // The map that resolves "$ref" strings inside allOf/anyOf is per document: the
@@ -585,7 +599,7 @@ package generator
 // references of ONE document (schemaGenerator). Their keys and uses are what the
 // contracts of this file describe; these lists are the frame of that description.
 //@ func New@state
-//@   props C10 C20 C03 C12 C11
+//@   props C10 C20 C03 C12 C11 C14 C01 C04 C02
 //@   collections Generator: inScope outputs formatters
 //@   collections output: declsByName declsBySchema
 //@   collections schemaGenerator: schemaTypesByRef
@@ -639,7 +653,7 @@ package generator
 //@   ensures [C20] a-typed-root-is-declared: old(len(g.schema.ObjectAsType.Type)) == 1 && result == nil ==> called_with("(*schemaGenerator).generateDeclaredType", 1, g.schema.ObjectAsType) && call_count("(*schemaGenerator).generateDeclaredType") == 2
 //@   ensures [C18,C20] declaration-errors-propagate: call_failed("(*schemaGenerator).generateDeclaredType") ==> result != nil
 //@ func (*schemaGenerator).generateRootType@taken
-//@   props C20 C10
+//@   props C20 C10 C04 C18
 //@   option verify-only
 //@   option inline sortDefinitionsByName (*Generator).getRootTypeName
 //@   option noframe
@@ -647,6 +661,17 @@ package generator
 //@   setup map_put(g.schema.Definitions, "X", new_schema_type("object"))
 //@   setup map_put(g.output.declsByName, "Mapped", new_decl("Mapped"))
 //@   ensures [C20,C10] definitions-are-declared-also-when-the-root-name-is-taken: called_with("(*schemaGenerator).generateDeclaredType", 1, g.schema.Definitions["X"])
+//@   ensures [C20,C04,C18] a-root-is-not-dropped-because-another-schema-has-its-name: result == nil ==> called_with("(*schemaGenerator).generateDeclaredType", 1, g.schema.ObjectAsType)
+// The name is taken by the declaration made for this very root: the document was
+// generated before (reached through a reference, then named on the command line).
+//@ func (*schemaGenerator).generateRootType@again
+//@   props C20 C10
+//@   option verify-only
+//@   option inline sortDefinitionsByName (*Generator).getRootTypeName
+//@   option noframe
+//@   shape g = sgen(@registered,@typedroot,@rootmapping)
+//@   setup map_put(g.output.declsByName, "Mapped", new_decl("Mapped", g.schema.ObjectAsType))
+//@   ensures [C20] a-root-is-declared-once: result == nil && call_count("(*schemaGenerator).generateDeclaredType") == 0
 
 // ---- "$ref": "#" (the document's own root) ---------------------------------------
 // Scenario: the generator's document is registered, and the node holding the ref is
@@ -688,6 +713,7 @@ package generator
 //@   ensures [C10] same-package-reference-is-the-declared-type: has_suffix(t.Ref, "/X") && t.Ref != "#/properties/X" && result1 == nil ==> result0 == call_result("(*schemaGenerator).generateDeclaredType", 0)
 //@   ensures [C10,C18] declaration-errors-propagate: call_failed("(*schemaGenerator).generateDeclaredType") ==> result1 != nil
 //@   ensures [C10] scope-restored: len(g.inScope) == 0
+//@   ensures [C18,C01] a-type-or-an-error: (result1 == nil) != (result0 == nil)
 
 // ---- following a reference into ANOTHER document ---------------------------------
 // Scenario: the loader knows one other document (id "other.ID", a typed definition
@@ -719,6 +745,7 @@ package generator
 //@   ensures [C20] declared-by-a-generator-for-the-other-document: result1 == nil ==> call_arg("(*schemaGenerator).generateDeclaredType", 0).schema == other_schema() && out_pkg(call_arg("(*schemaGenerator).generateDeclaredType", 0).output) == "x/defpkg" && out_file(call_arg("(*schemaGenerator).generateDeclaredType", 0).output) == "default.go"
 //@   ensures [C20,C10] same-package-reference-is-unqualified: result1 == nil && g.output.file.Package.QualifiedName == "x/defpkg" ==> result0 == call_result("(*schemaGenerator).generateDeclaredType", 0) && len(g.output.file.Package.Imports) == 0
 //@   ensures [C20,C01] cross-package-reference-is-qualified-and-imported: result1 == nil && g.output.file.Package.QualifiedName == "p1" ==> dyn(result0) == "*codegen.NamedType" && result0.Package.QualifiedName == "x/defpkg" && result0.Decl == call_result("(*schemaGenerator).generateDeclaredType", 0).Decl && len(g.output.file.Package.Imports) == 1 && last(g.output.file.Package.Imports).QualifiedName == "x/defpkg" && last(g.output.file.Package.Imports).Name == "defpkg"
+//@   ensures [C18,C01] a-type-or-an-error: (result1 == nil) != (result0 == nil)
 
 // A reference node that is met again while it is being followed is a cycle: the
 // result is a pointer to the declared type (a struct cannot contain itself), and
@@ -735,6 +762,7 @@ package generator
 //@   setup map_put(g.schema.Definitions, "X", new_schema_type("object"))
 //@   setup scope_put(g, t, "", "X")
 //@   ensures [C10,C01] cycles-go-through-a-pointer: result1 == nil ==> dyn(result0) == "*codegen.PointerType" && result0.Type == call_result("(*schemaGenerator).generateDeclaredType", 0)
+//@   ensures [C18,C01] a-type-or-an-error: (result1 == nil) != (result0 == nil)
 
 // ---- the four bound keywords reach type selection in their own positions --------
 // PrimitiveTypeFromJSONSchemaType(jsType, format, pointer, minIntSize, &Minimum,
@@ -845,7 +873,7 @@ package generator
 //@   shape g = sgen()
 //@   shape t = new
 //@   shape t.Format = "" | "int32" | "int64"
-//@   shape t.Type = strs() | strs(string) | strs(integer) | strs(number) | strs(boolean)
+//@   shape t.Type = strs() | strs(string) | strs(integer) | strs(number) | strs(boolean) | strs(string,null) | strs(null,string)
 //@   shape t.Enum = emptyslice() | enumvals(string) | enumvals(string,string) | enumvals(float64,float64) | enumvals(bool,bool) | enumvals(string,float64) | enumvals(nil,string) | enumvals(object)
 //@   assigns nothing
 //@   ensures [C08,C18] empty-list-fails: len(t.Enum) == 0 ==> result1 != nil
@@ -893,6 +921,7 @@ package generator
 //@   ensures [C07,C03] array-arm: t.Enum == nil && t.Ref == "" && len(t.Type) == 1 && t.Type[0] == "array" && result1 == nil ==> dyn(result0) == "codegen.ArrayType" && t.Items != nil
 //@   ensures [C07,C18] array-needs-items: t.Enum == nil && t.Ref == "" && len(t.Type) == 1 && t.Type[0] == "array" && t.Items == nil ==> result1 != nil
 //@   ensures [C03,C02] nullable-integer-is-pointer: t.Enum == nil && t.Ref == "" && len(t.Type) == 2 && result1 == nil ==> dyn(result0) == "*codegen.PointerType"
+//@   ensures [C18,C01] a-type-or-an-error: (result1 == nil) != (result0 == nil)
 
 // ---- an object's own properties are generated before it is handed on (generateStructType) ----
 // An object with `properties` next to `anyOf`/`allOf` still has its properties
@@ -927,6 +956,7 @@ package generator
 //@   ensures [C01] nothing-else-imported: len(g.output.file.Package.Imports) == len(t.GoJSONSchemaExtension.Imports)
 //@   ensures [C02] custom-type-wins: t.GoJSONSchemaExtension.Type != nil ==> result1 == nil && dyn(result0) == "*codegen.CustomNameType" && result0.Type == *t.GoJSONSchemaExtension.Type
 //@   ensures [C02] otherwise-the-schema-type: t.GoJSONSchemaExtension.Type == nil ==> result1 == nil && dyn(result0) == "codegen.PrimitiveType"
+//@   ensures [C18,C01] a-type-or-an-error: (result1 == nil) != (result0 == nil)
 //@ func (*schemaGenerator).generateTypeInline@extension
 //@   props C01 C02
 //@   option verify-only
@@ -984,6 +1014,7 @@ package generator
 //@   ensures [C03,C02] typed-additional-properties: result1 == nil && t.AdditionalProperties != nil && t.AdditionalProperties.Not == nil && len(t.AdditionalProperties.Type) == 1 ==> dyn(last(result0.Fields).Type) == "codegen.MapType" && (t.AdditionalProperties.Type[0] == "string" ==> last(result0.Fields).Type.ValueType.Type == "string") && (t.AdditionalProperties.Type[0] == "integer" ==> last(result0.Fields).Type.ValueType.Type == "int") && (t.AdditionalProperties.Type[0] == "object" ==> dyn(last(result0.Fields).Type.ValueType) == "codegen.EmptyInterfaceType")
 //@   ensures [C03] untyped-additional-properties: result1 == nil && t.AdditionalProperties != nil && t.AdditionalProperties.Not == nil && len(t.AdditionalProperties.Type) == 0 ==> dyn(last(result0.Fields).Type) == "codegen.EmptyInterfaceType"
 //@   ensures [C09] object-default-carried: result1 == nil ==> ((result0.DefaultValue != nil) <==> t.Default != nil)
+//@   ensures [C18,C01] a-type-or-an-error: (result1 == nil) != (result0 == nil)
 
 // ---- objects without properties become maps of their additionalProperties type (generateStructType) ----
 //@ func (*schemaGenerator).generateStructType@map-arm
@@ -998,3 +1029,4 @@ package generator
 //@   ensures [C03,C02] typed-values: result1 == nil && t.AdditionalProperties != nil ==> dyn(result0) == "*codegen.MapType" && result0.ValueType == call_result("(*schemaGenerator).generateType", 0)
 //@   ensures [C03] untyped-values-when-unconstrained: result1 == nil && t.AdditionalProperties == nil ==> dyn(result0) == "*codegen.MapType" && dyn(result0.ValueType) == "codegen.EmptyInterfaceType"
 //@   ensures [C18] value-type-errors-propagate: t.AdditionalProperties != nil && call_failed("(*schemaGenerator).generateType") ==> result1 != nil
+//@   ensures [C18,C01] a-type-or-an-error: (result1 == nil) != (result0 == nil)
